@@ -1,4 +1,4 @@
 From Coq Require Import Extraction ExtrOcamlBasic.
 From OV Require Import Common.Base C07.Model C07.RoundTrip.
 Extraction Language OCaml.
-Extraction "C07_model.ml" run run_build ppp_serialize_options build_tags l2tp_append build_avps pap_build chap_build.
+Extraction "C07_model.ml" run run_alts run_build ppp_serialize_options build_tags l2tp_append build_avps pap_build chap_build.
